@@ -81,23 +81,23 @@ def main():
     ck.load_alphabet(pats, char_ops=['alnum', 'lower', 'ws', 'width'])
     quick = ck.tier == 'quick'
     cases = c02.cases(ck.tier)
-    ck.bounds = dict(history='summary of a history: 1..%d commits in `rev-list --topo-order HEAD` order plus one tagged commit unreachable from HEAD' % (2 if quick else 3),
+    ck.bounds = dict(history='summary of a history: 1..%d commits in `rev-list --topo-order HEAD` order plus one tagged commit unreachable from HEAD' % (3 if quick else 5),
                      tags='%d menus of 3-4 concrete tag names (valid / invalid / both-format spellings, numeric vs lexicographic order, pre-releases), every placement of every tag (absent / on each commit / on the unreachable commit) symbolic' % len(c02.MENUS),
                      formats=['semver', 'pep440', 'auto'], facts='distance any number 0..99 (one family any u32), commit times 10 digits, branch absent / main / f/<any><any>, status text 0-2 symbolic chars',
                      configurations=len(cases))
     ck.outside = ['the git binary itself and the object database: `GitVcs::run_git_command` is replaced by a stub answering each sub-command from the symbolic summary according to git\'s documented contract (validated on random real repositories each run)',
                   'that the first validly tagged commit in topological order is a nearest one follows from the topo-order contract (argued in DESIGN, validated on real repositories with merges)',
-                  'git failures / shallow clones / repository discovery (-C, find_vcs_root)', 'tag names outside the menus, more than 4 tags, more than 3 commits']
+                  'git failures / shallow clones / repository discovery (-C, find_vcs_root)', 'tag names outside the menus, more than 4 (thorough 5) tags, more than 3 (thorough 5) commits in the order']
     ck.assumptions = ['git sub-command contracts as coded in harness/c02.py (GitWorld.git)', 'tracing macros disabled (no effect on results)', 'python std models (models_used)']
     t0 = time.time()
-    bad = validate_git_contract(ck, 12 if quick else 60)
+    bad = validate_git_contract(ck, 12 if quick else 150)
     for what, desc in bad[:3]:
         ck.fail_inconclusive('git contract assumption not confirmed on a real repository: %s %r' % (what, desc))
     # the real extraction on random real histories (merges, annotated tags, detached HEAD, dirty kinds) against the statement's oracle
     rng = random.Random(77 + ck.seed)
     menu = sorted({t for tags, _f in c02.MENUS.values() for t in tags})
     real_bad = []
-    for i in range(12 if quick else 80):
+    for i in range(12 if quick else 240):
         desc = gitlib.random_desc(rng, menu)
         fmt = ('semver', 'pep440', 'auto')[i % 3]
         r, hs, j = gitlib.run_real(desc, fmt)
